@@ -25,8 +25,8 @@ META = {
                     "H part at the last level explores only transitions touching a member created by the "
                     "history (transitions between untouched initial members are covered at level 1, "
                     "given that every member's snapshot is verified unchanged after every transition)"],
-    "bounds": {"quick": {"tree_depth": 2, "spec_list_arity": "0-3", "history_depth": 2},
-               "thorough": {"tree_depth": 3, "spec_list_arity": "0-3", "history_depth": 3}},
+    "bounds": {"quick": {"tree_depth": 2, "spec_list_arity": "0-3 exhaustive over 5 operands, 4-6 over 3, 7-9 over 2, 10-20 with one distinguished operand at every position", "history_depth": 2},
+               "thorough": {"tree_depth": 3, "spec_list_arity": "0-3 exhaustive over 5 operands, 4-6 over 3, 7-12 over 2, 13-40 with one distinguished operand at every position", "history_depth": 3}},
     "technique": "explicit-state BFS over operation histories on shared live objects + exhaustive "
                  "term x document enumeration, relational and reference-model oracles",
 }
@@ -139,7 +139,7 @@ def units(tier):
     n = len(trees(depth))
     chunk = 40 if tier == "quick" else 400
     u = [["T", way, i, min(i + chunk, n)] for way in WAYS for i in range(0, n, chunk)]
-    u += [["N", 0], ["PREP"]]
+    u += [["N", 0], ["PREP"]] + [["NL", op] for op in OPS]
     hist_depth = 2 if tier == "quick" else 3
     # H part: one unit per first transition (prefix partition)
     u += [["H", hist_depth, i] for i in range(len(h_menu(len(h_initial_terms()))))]
@@ -163,6 +163,22 @@ def run_unit(unit, tier):
             for n in range(0, 4):
                 for tup in itertools.product(["null", "v1", "v2", "k1", "vn"], repeat=n):
                     check_nary(res, op, tup)
+    elif unit[0] == "NL":
+        # longer spec lists: every operand list of length 4..6 over three operands with distinct
+        # result vectors, of length 7..N2 over two, and -- up to length N1 -- every list in which one
+        # operand at any one position differs from all the others (both ways round)
+        op = unit[1]
+        n2, n1 = (9, 20) if tier == "quick" else (12, 40)
+        for n in range(4, 7):
+            for tup in itertools.product(["v1", "v3", "vn"], repeat=n):
+                check_nary(res, op, tup)
+        for n in range(7, n2 + 1):
+            for tup in itertools.product(["v1", "v2"], repeat=n):
+                check_nary(res, op, tup)
+        for n in range(n2 + 1, n1 + 1):
+            for a, b in (("v1", "v2"), ("v2", "v1"), ("vn", "v1"), ("v3", "null")):
+                for pos in range(n):
+                    check_nary(res, op, tuple(b if i == pos else a for i in range(n)))
     else:
         _, depth, first = unit
         h_explore(res, depth, first)
